@@ -58,7 +58,7 @@ def warm():
 
 def sizes(tier):
     if tier == "thorough":
-        return {"runs": 8000, "block": 50, "det": 64, "det_fresh": 8, "timeout": 6500, "order": 600}
+        return {"runs": 6000, "block": 50, "det": 64, "det_fresh": 8, "timeout": 6500, "order": 400}
     return {"runs": 1600, "block": 25, "det": 24, "det_fresh": 6, "timeout": 900, "order": 200}
 
 
